@@ -390,7 +390,7 @@ package xmpp
 //@   ensures [C16.connect.established] err == nil ==> c.CurrentState.state == StateSessionEstablished && count(Spawn_recv) == old(count(Spawn_recv)) + 1 && last(Spawn_recv) == c && count(PacketRead) == old(count(PacketRead)) + 1 && typeof(last(PacketRead)) == stanza.Handshake
 //@   ensures [C16.connect.failure] err != nil ==> typeof(err) == ConnError && count(Spawn_recv) == old(count(Spawn_recv)) && c.CurrentState.state != StateSessionEstablished
 //@   assigns c.TransportConfiguration.Domain, c.transport, c.CurrentState.state
-//@   emits EventHandler, Connected, Write, PacketRead, Spawn_recv, Spawn, TokenRead
+//@   emits EventHandler, Connected, Write, PacketRead, Spawn_recv, Spawn, TokenRead, AckReqRead, DecodeFailed, DecodedElement, StanzaRead, StreamErrRead
 //@ func (*xmpp.Component).Resume(c) (err)
 //@   requires c != nil
 //@   ensures [C16.established] err == nil ==> c.CurrentState.state == StateSessionEstablished && count(Spawn_recv) == old(count(Spawn_recv)) + 1 && last(Spawn_recv) == c
@@ -399,7 +399,7 @@ package xmpp
 //@   ensures [C16.wire] count(Write) <= old(count(Write)) + 1 && (count(Write) == old(count(Write)) + 1 ==> count(Connected) == old(count(Connected)) + 1 && last(Write, 1) == "<handshake>" + hexenc(sha1raw(last(Connected, 1) + c.Secret)) + "</handshake>" && at(Connected, count(Connected) - 1) < at(Write, count(Write) - 1))
 //@   ensures [C16.wire.first] err == nil ==> count(Write) == old(count(Write)) + 1 && at(Write, count(Write) - 1) < at(PacketRead, count(PacketRead) - 1)
 //@   assigns c.TransportConfiguration.Domain, c.transport, c.CurrentState.state
-//@   emits EventHandler, Connected, Write, PacketRead, Spawn_recv, Spawn, TokenRead
+//@   emits EventHandler, Connected, Write, PacketRead, Spawn_recv, Spawn, TokenRead, AckReqRead, DecodeFailed, DecodedElement, StanzaRead, StreamErrRead
 
 // ---------------------------------------------------------------------------
 // C14: SASL
@@ -419,6 +419,11 @@ package xmpp
 //@ pred plainPayload(mech, user, secret) := xmlSASLAuth(mech, b64("\x00" + user + "\x00" + secret))
 //@ pred permanentErr(err) := err != nil && typeof(err) == ConnError && err.(ConnError).Permanent
 //
+// Every ConnError is made here (package-wide scans: nobody else stores to ConnError.Permanent, and only the functions
+// whose `at call NewConnError` assertions pin the classification call it).
+//@ func xmpp.NewConnError(err, permanent) (e)
+//@   ensures [C13.connerror] e.err == err && e.Permanent == permanent
+//
 //@ func xmpp.authPlain(socket, decoder, mech, user, secret) (err)
 //@   requires socket != nil && decoder != nil
 //@   ensures [C14.plain.once]    count(Write) <= old(count(Write)) + 1 && count(PacketRead) <= old(count(PacketRead)) + 1
@@ -426,7 +431,8 @@ package xmpp
 //@   ensures [C14.plain.order]   count(PacketRead) == old(count(PacketRead)) + 1 ==> count(Write) == old(count(Write)) + 1 && atlast(Write) < atlast(PacketRead)
 //@   ensures [C14.plain.success] err == nil ==> count(PacketRead) == old(count(PacketRead)) + 1 && typeof(last(PacketRead)) == stanza.SASLSuccess
 //@   ensures [C14.plain.failure] (count(PacketRead) == old(count(PacketRead)) + 1 && typeof(last(PacketRead)) == stanza.SASLFailure) ==> permanentErr(err)
-//@   emits Write, PacketRead
+//@   emits Write, PacketRead, AckReqRead, DecodeFailed, DecodedElement, Marshaled, StanzaRead, StreamErrRead, TokenRead
+//@   at call NewConnError assert [C13.auth.permanent] $permanent && count(PacketRead) == old(count(PacketRead)) + 1 && typeof(last(PacketRead)) == stanza.SASLFailure
 //
 //@ pred advertised(f, m) := inList(f.Mechanisms.Mechanism, m)
 //@ pred firstCommon(cred, f, k) := 0 <= k && k < len(cred.mechanisms) && advertised(f, cred.mechanisms[k])
@@ -438,7 +444,8 @@ package xmpp
 //@   ensures [C14.sasl.chosen] count(Write) == old(count(Write)) + 1 ==> exists(k, 0, len(credential.mechanisms), firstCommon(credential, f, k) && (credential.mechanisms[k] == "PLAIN" || credential.mechanisms[k] == "X-OAUTH2") && last(Write, 1) == plainPayload(credential.mechanisms[k], user, credential.secret))
 //@   ensures [C14.sasl.success] err == nil ==> count(Write) == old(count(Write)) + 1 && count(PacketRead) == old(count(PacketRead)) + 1 && typeof(last(PacketRead)) == stanza.SASLSuccess
 //@   ensures [C14.sasl.failure] (count(PacketRead) == old(count(PacketRead)) + 1 && typeof(last(PacketRead)) == stanza.SASLFailure) ==> permanentErr(err)
-//@   emits Write, PacketRead
+//@   emits Write, PacketRead, AckReqRead, DecodeFailed, DecodedElement, Marshaled, StanzaRead, StreamErrRead, TokenRead
+//@   at call NewConnError assert [C13.auth.permanent] $permanent && count(Write) == old(count(Write))
 //@   loop 1:
 //@     invariant 0 <= $i && $i <= len(credential.mechanisms)
 //@     invariant matchingMech != "" ==> exists(k, 0, $i, credential.mechanisms[k] == matchingMech && advertised(f, credential.mechanisms[k]))
@@ -455,7 +462,7 @@ package xmpp
 //@   ensures [C14.auth.failure] (old(s.err) == nil && count(PacketRead) == old(count(PacketRead)) + 1 && typeof(last(PacketRead)) == stanza.SASLFailure) ==> permanentErr(s.err)
 //@   ensures s.Features == old(s.Features) && s.transport == old(s.transport)
 //@   assigns s.err
-//@   emits Write, PacketRead
+//@   emits Write, PacketRead, AckReqRead, DecodeFailed, DecodedElement, Marshaled, StanzaRead, StreamErrRead, TokenRead
 
 // ---------------------------------------------------------------------------
 // C08 / C10: sending
@@ -484,7 +491,7 @@ package xmpp
 //@   ensures c.Session == old(c.Session) && c.config == old(c.config) && c.transport == old(c.transport) && (c.Session != nil ==> cQueue(c) == old(cQueue(c)) && c.Session.SMState.Inbound == old(c.Session.SMState.Inbound) && backingOK(cQueue(c))) && clientOK(c)
 //@   assigns c.Session.SMState.UnAckQueue.Uslice
 //@   elems c.Session.SMState.UnAckQueue.Uslice
-//@   emits Write
+//@   emits Write, Marshaled
 //
 //@ func (*xmpp.Client).SendRaw(c, packet) (err)
 //@   requires clientOK(c)
@@ -512,7 +519,8 @@ package xmpp
 //@ func (*xmpp.Client).recv(c, keepaliveQuit)
 //@   requires recvOK(c)
 //@   requires keepaliveQuit != nil && !chanClosed(keepaliveQuit)
-//@   ensures [C12.quit]  count(Close) >= old(count(Close)) + 1 && last(Close) == keepaliveQuit
+//@   ensures [C12.quit,C18.recv.quit]  count(Close) >= old(count(Close)) + 1 && last(Close) == keepaliveQuit
+//@   ensures [C12.recv.noclose] count(Closed) - old(count(Closed)) == count(StreamErrRead) - old(count(StreamErrRead))
 //@   ensures [C05.once]  newSpawns() == newReads() || (newSpawns() + 1 == newReads() && !isStanza(last(PacketRead)))
 //@   ensures [C05.same]  forall(j, 0, newSpawns(), arg(Spawn_route, old(count(Spawn_route)) + j, 2) == arg(PacketRead, old(count(PacketRead)) + j) && arg(Spawn_route, old(count(Spawn_route)) + j, 1) == iface(c))
 //@   ensures [C05.acks]  count(AnswerSent) - old(count(AnswerSent)) == count(AckReqRead) - old(count(AckReqRead))
@@ -523,7 +531,7 @@ package xmpp
 //@   ensures [C12.event] (!(newSpawns() + 1 == newReads() && typeof(last(PacketRead)) == stanza.StreamClosePacket) && c.Handler != nil) ==> count(EventHandler) - old(count(EventHandler)) == count(StreamErrRead) - old(count(StreamErrRead)) + 1 && last(EventHandler).State.state == StateDisconnected && last(EventHandler).SMState == c.Session.SMState && atlast(ErrorHandler) < atlast(EventHandler)
 //@   assigns c.Session.SMState.Inbound, c.Session.SMState.UnAckQueue.Uslice, c.CurrentState.state
 //@   elems c.Session.SMState.UnAckQueue.Uslice, c.router.IQResultRoutes
-//@   emits PacketRead, StanzaRead, AckReqRead, StreamErrRead, AnswerSent, Send, SendAttrs, Write, Spawn_route, Spawn, ErrorHandler, EventHandler, Close, HandlePacket, SendRaw, ChanSend, ChanSend_IQ, MapGet_IQResultRoutes, MapDel_IQResultRoutes
+//@   emits PacketRead, StanzaRead, AckReqRead, StreamErrRead, AnswerSent, Send, SendAttrs, Write, Spawn_route, Spawn, ErrorHandler, EventHandler, Close, HandlePacket, SendRaw, ChanSend, ChanSend_IQ, MapGet_IQResultRoutes, MapDel_IQResultRoutes, DecodeFailed, DecodedElement, TokenRead, Marshaled, Closed, Routed
 //@   assigns locked(addr(c.router.IQResultRouteLock)), rlocked(addr(c.router.IQResultRouteLock))
 //@   at call Send assert [C09.h] typeof($packet) == stanza.SMAnswer && $packet.(stanza.SMAnswer).H == c.Session.SMState.Inbound
 //@   loop 1:
@@ -534,12 +542,13 @@ package xmpp
 //@     invariant c.router.IQResultRoutes != nil && lockFree(c.router)
 //@     invariant cQueue(c) != nil ==> (base(cQueue(c).Uslice) == old(base(cQueue(c).Uslice)) || fresh(cQueue(c).Uslice))
 //@     invariant [C05.spawns.only,C12.spawns.only] count(Spawn) - old(count(Spawn)) == newSpawns()
-//@     invariant [C05.once]  newSpawns() == newReads() && newReads() >= 0
+//@     invariant [C05.once,C12.once,C13.close.reported]  newSpawns() == newReads() && newReads() >= 0
 //@     invariant [C05.same]  forall(j, 0, newSpawns(), arg(Spawn_route, old(count(Spawn_route)) + j, 2) == arg(PacketRead, old(count(PacketRead)) + j) && arg(Spawn_route, old(count(Spawn_route)) + j, 1) == iface(c))
 //@     invariant [C05.acks]  count(AnswerSent) - old(count(AnswerSent)) == count(AckReqRead) - old(count(AckReqRead))
 //@     invariant [C09.count] c.Session.SMState.Inbound - old(c.Session.SMState.Inbound) == count(StanzaRead) - old(count(StanzaRead))
-//@     invariant [C12.once]  count(ErrorHandler) - old(count(ErrorHandler)) == count(StreamErrRead) - old(count(StreamErrRead))
-//@     invariant [C12.event] c.Handler != nil ==> count(EventHandler) - old(count(EventHandler)) == count(StreamErrRead) - old(count(StreamErrRead))
+//@     invariant [C12.recv.noclose] count(Closed) - old(count(Closed)) == count(StreamErrRead) - old(count(StreamErrRead))
+//@     invariant [C12.once,C13.close.reported]  count(ErrorHandler) - old(count(ErrorHandler)) == count(StreamErrRead) - old(count(StreamErrRead))
+//@     invariant [C12.event,C13.close.reported] c.Handler != nil ==> count(EventHandler) - old(count(EventHandler)) == count(StreamErrRead) - old(count(StreamErrRead))
 
 // ---------------------------------------------------------------------------
 // Session: stream features are decoded afresh on every stream (re)start (C14 "advertised", C03)
@@ -595,7 +604,7 @@ package xmpp
 //@   ensures [C11.resume.other]   (!ok && count(PacketRead) == old(count(PacketRead)) + 1 && typeof(last(PacketRead)) != stanza.SMFailed) ==> s.err != nil
 //@   ensures s.transport == old(s.transport) && s.Features == old(s.Features) && s.BindJid == old(s.BindJid)
 //@   assigns s.err, s.SMState
-//@   emits Write, PacketRead, StanzaRead, AckReqRead, StreamErrRead, TokenRead
+//@   emits Write, PacketRead, StanzaRead, AckReqRead, StreamErrRead, TokenRead, DecodeFailed, DecodedElement, Marshaled
 //@   at call Marshal assert [C11.resume.id,C09.resume.h] typeof($v) == stanza.SMResume && $v.(stanza.SMResume).PrevId == s.SMState.Id && $v.(stanza.SMResume).H == addr(s.SMState.Inbound)
 //@   at call Write assert [C11.resume.wire] bytes($p) == xmlOf(last(Marshaled)) && typeof(last(Marshaled)) == stanza.SMResume
 //
@@ -613,13 +622,14 @@ package xmpp
 //@   ensures [C11.enable.needs]  (old(s.err) == nil && s.err == nil && old(stanza.smOffered(s.Features)) && old(o.StreamManagementEnable)) ==> newReadIs(stanza.SMEnabled) && count(Write) == old(count(Write)) + 1
 //@   ensures s.transport == old(s.transport) && s.Features == old(s.Features) && s.BindJid == old(s.BindJid)
 //@   assigns s.err, s.SMState, o.StreamManagementEnable
-//@   emits Write, PacketRead, StanzaRead, AckReqRead, StreamErrRead, TokenRead, Marshaled
+//@   emits Write, PacketRead, StanzaRead, AckReqRead, StreamErrRead, TokenRead, Marshaled, DecodeFailed, DecodedElement
 //@   at call Write assert [C11.enable.wire] bytes($p) == xmlOf(last(Marshaled)) && typeof(last(Marshaled)) == stanza.SMEnable
 
 // ---------------------------------------------------------------------------
 // C05 / C08: transports are io.Reader / io.Writer; the component's receive loop
 //
 //@ func (*xmpp.XMPPTransport).Read(t, p) (n, err)
+//@   emits ReaderRead
 //@   requires t != nil
 //@   ensures [C05.reader.tcp] 0 <= n && n <= len(p)
 //@   elems p
@@ -635,13 +645,13 @@ package xmpp
 //@   ensures [C05.reader.ws] 0 <= n && n <= len(p)
 //@   elems p
 //@   assigns t.pending
-//@   emits ChanRecv, Select
+//@   emits ChanRecv, Select, DoneAsked, Selected, Write
 //@ func (xmpp.WebsocketTransport).Write(t, p) (n, err)
 //@   requires t.wsConn != nil
 //@   ensures [C08.writer.ws.once] count(WsWrite) == old(count(WsWrite)) + 1 && last(WsWrite, 0) == t.wsConn && last(WsWrite, 1) == bytes(p)
 //@   ensures [C08.writer.ws.err]  !last(WsWrite, 2) ==> err != nil
 //@   ensures [C08.writer.ws.n]    n == len(p)
-//@   emits WsWrite
+//@   emits WsWrite, Write
 //
 //@ event Routed(s Iface, p Iface)
 //@ pred compOK(c) := c != nil && c.transport != nil && c.router != nil && wfRouter(c.router) && c.router.IQResultRoutes != nil && lockFree(c.router) && c.ErrorHandler != nil
@@ -652,7 +662,7 @@ package xmpp
 //@   ensures [C05.comp.error] !(newReads() > 0 && typeof(last(PacketRead)) == stanza.StreamClosePacket && count(Routed) - old(count(Routed)) + 1 == newReads() + (count(StreamErrRead) - old(count(StreamErrRead)))) ==> count(ErrorHandler) - old(count(ErrorHandler)) == count(StreamErrRead) - old(count(StreamErrRead)) + 1 && c.CurrentState.state == StateDisconnected
 //@   assigns c.CurrentState.state
 //@   elems c.router.IQResultRoutes
-//@   emits PacketRead, StanzaRead, AckReqRead, StreamErrRead, TokenRead, Routed, HandlePacket, Send, SendAttrs, SendRaw, Write, ChanSend, Close, ErrorHandler, EventHandler, ChanSend_IQ, MapGet_IQResultRoutes, MapDel_IQResultRoutes
+//@   emits PacketRead, StanzaRead, AckReqRead, StreamErrRead, TokenRead, Routed, HandlePacket, Send, SendAttrs, SendRaw, Write, ChanSend, Close, ErrorHandler, EventHandler, ChanSend_IQ, MapGet_IQResultRoutes, MapDel_IQResultRoutes, DecodeFailed, DecodedElement, Closed
 //@   assigns locked(addr(c.router.IQResultRouteLock)), rlocked(addr(c.router.IQResultRouteLock))
 //@   loop 1:
 //@     invariant compOK(c) && c.router == old(c.router) && c.router.IQResultRoutes == old(c.router.IQResultRoutes) && c.Handler == old(c.Handler)
@@ -717,22 +727,24 @@ package xmpp
 //@   emit StreamStarted(iface(t), err == nil)
 //@   ensures [C03.startstream.header] count(Write) >= old(count(Write)) + 1 && arg(Write, old(count(Write)), 0) == iface(t) && arg(Write, old(count(Write)), 1) == sprintf(t.openStatement) && (err == nil ==> count(Write) == old(count(Write)) + 1)
 //@   ensures [C16.startstream.id] err == nil ==> headerId(id)
+//@   ensures [C13.startstream.transient] err != nil ==> typeof(err) == ConnError && !err.(ConnError).Permanent
 //@   ensures [C05.transport.nodeadline] count(ReadDeadlineSet) == old(count(ReadDeadlineSet)) || last(ReadDeadlineSet, 1)
 //@   ensures t.isSecure == old(t.isSecure) && t.Config == old(t.Config)
-//@   emits Write, TokenRead, ChanRecv, Select
+//@   emits Write, TokenRead, ChanRecv, Select, ConnClosed, Selected, DecodeFailed
 //
 //@ func (*xmpp.XMPPTransport).Connect(t) (id, err)
 //@   requires t != nil
 //@   emit Connected(iface(t), id) when err == nil
 //@   ensures [C04.connect.plain] err == nil ==> !t.isSecure && t.conn != nil && fresh(t.conn) && count(Dialed) == old(count(Dialed)) + 1 && last(Dialed, 0) == t.Config.Address
 //@   ensures [C20.connect.dial] count(Dialed) - old(count(Dialed)) <= 1 && (count(Dialed) > old(count(Dialed)) ==> last(Dialed, 0) == old(t.Config.Address))
+//@   ensures [C13.dial.transient] err != nil ==> typeof(err) == ConnError && !err.(ConnError).Permanent
 //@   ensures [C04.connect.wired] err == nil ==> wired(t)
 //@   ensures [C02.decoder.strict] err == nil ==> strictDecoder(t.decoder)
 //@   ensures [C16.connect.id] err == nil ==> headerId(id)
 //@   ensures [C05.transport.nodeadline] count(ReadDeadlineSet) == old(count(ReadDeadlineSet)) || last(ReadDeadlineSet, 1)
 //@   ensures t.Config == old(t.Config)
 //@   assigns t.conn, t.closeChan, t.readWriter, t.decoder, t.isSecure
-//@   emits Dialed, Write, TokenRead, ChanRecv, Select, StreamStarted
+//@   emits Dialed, Write, TokenRead, ChanRecv, Select, StreamStarted, ConnClosed, Selected, DecodeFailed
 
 // ---------------------------------------------------------------------------
 // C03 / C04: negotiation steps. Each step leaves s.err == nil only if the server's confirming reply was read; a ghost
@@ -759,7 +771,7 @@ package xmpp
 //@   ensures [C04.tls.enabled]  s.TlsEnabled == (old(s.TlsEnabled) || (count(StartTLSCalled) == old(count(StartTLSCalled)) + 1 && last(StartTLSCalled, 1)))
 //@   ensures s.transport == old(s.transport) && s.Features == old(s.Features)
 //@   assigns s.err, s.TlsEnabled
-//@   emits Write, DecodedElement, StartTLSCalled
+//@   emits Write, DecodedElement, StartTLSCalled, DecodeFailed
 //
 //@ pred iqResultRead(v) := count(Decoded) == old(count(Decoded)) + 1 && last(Decoded, 1) && typeof(last(Decoded, 0)) == *stanza.IQ && last(Decoded, 0).(*stanza.IQ).Type == "result"
 //
@@ -796,12 +808,14 @@ package xmpp
 //@   ensures [C03.success.resumed.order] (err == nil && count(ResumedOK) > old(count(ResumedOK))) ==> atlast(Restarted) < atlast(ResumedOK)
 //@   ensures [C11.resumed.identity] (err == nil && count(ResumedOK) > old(count(ResumedOK)) && old(c.Session) != nil) ==> res == old(c.Session) && res.BindJid == old(c.Session.BindJid) && res.SMState.Id == old(c.Session.SMState.Id) && res.SMState.UnAckQueue == old(c.Session.SMState.UnAckQueue) && res.SMState.Inbound == old(c.Session.SMState.Inbound)
 //@   ensures [C03.failure] err != nil ==> typeof(err) == ConnError || res != nil
+//@   ensures [C13.session.cut] (count(Decoded) == old(count(Decoded)) + 1 && !last(Decoded, 1)) ==> err != nil && !permanentErr(err)
 //@   ensures [C09.enable.last] (err == nil && count(SMEnabledOK) > old(count(SMEnabledOK))) ==> (count(PacketRead) > old(count(PacketRead)) ==> atlast(PacketRead) < atlast(SMEnabledOK)) && (count(Decoded) > old(count(Decoded)) ==> atlast(Decoded) < atlast(SMEnabledOK)) && (count(DecodedElement) > old(count(DecodedElement)) ==> atlast(DecodedElement) < atlast(SMEnabledOK))
 //@   ensures res != nil ==> res.transport == c.transport && (old(c.Session) != nil ==> res == old(c.Session)) && (old(c.Session) == nil ==> fresh(res))
 //@   assigns c.Session.err, c.Session.Features, c.Session.TlsEnabled, c.Session.StreamId, c.Session.SMState, c.Session.BindJid, c.Session.lastPacketId, c.config.StreamManagementEnable
-//@   emits Write, Decoded, DecodedElement, StartTLSCalled, SecureAsked, PacketRead, StanzaRead, AckReqRead, StreamErrRead, TokenRead, Marshaled, StreamStarted, TlsDone, AuthConfirmed, Restarted, ResumedOK, Bound, SessionOpened, SMEnabledOK
+//@   emits Write, Decoded, DecodedElement, StartTLSCalled, SecureAsked, PacketRead, StanzaRead, AckReqRead, StreamErrRead, TokenRead, Marshaled, StreamStarted, TlsDone, AuthConfirmed, Restarted, ResumedOK, Bound, SessionOpened, SMEnabledOK, DecodeFailed
 //@   at call auth assert [C04.gate] $s.err != nil || count(SecureAsked) > old(count(SecureAsked)) && last(SecureAsked, 0) == c.transport && (last(SecureAsked, 1) || c.config.Insecure)
 //@   at call auth assert [C03.order.tls,C04.order.tls] ($s.err == nil && count(TlsDone) > old(count(TlsDone))) ==> (count(Restarted) > old(count(Restarted)) && atlast(TlsDone) < atlast(Restarted))
+//@   at call NewConnError assert [C13.session.permanent] $permanent == (count(SecureAsked) > old(count(SecureAsked)) && !last(SecureAsked, 1) && !c.config.Insecure)
 //@   at call bind assert [C03.order.bind] count(AuthConfirmed) == old(count(AuthConfirmed)) + 1 && count(Restarted) > old(count(Restarted)) && atlast(AuthConfirmed) < atlast(Restarted) && count(ResumedOK) == old(count(ResumedOK))
 
 // ---------------------------------------------------------------------------
@@ -826,7 +840,7 @@ package xmpp
 //@   ensures old(c.Handler) == nil ==> count(EventHandler) == old(count(EventHandler))
 //@   ensures c.transport == old(c.transport) && c.config == old(c.config) && c.Handler == old(c.Handler) && c.router == old(c.router) && c.ErrorHandler == old(c.ErrorHandler) && connectOK(c)
 //@   assigns c.Session, c.Session.err, c.Session.Features, c.Session.TlsEnabled, c.Session.StreamId, c.Session.SMState, c.Session.BindJid, c.Session.lastPacketId, c.config.StreamManagementEnable, c.CurrentState.state
-//@   emits Write, Decoded, DecodedElement, StartTLSCalled, SecureAsked, PacketRead, StanzaRead, AckReqRead, StreamErrRead, TokenRead, Marshaled, StreamStarted, TlsDone, AuthConfirmed, Restarted, ResumedOK, Bound, SessionOpened, SMEnabledOK, Connected, EventHandler, Spawn, Spawn_connect$1
+//@   emits Write, Decoded, DecodedElement, StartTLSCalled, SecureAsked, PacketRead, StanzaRead, AckReqRead, StreamErrRead, TokenRead, Marshaled, StreamStarted, TlsDone, AuthConfirmed, Restarted, ResumedOK, Bound, SessionOpened, SMEnabledOK, Connected, EventHandler, Spawn, Spawn_connect$1, Closed, DecodeFailed
 //
 // NewClient: the domain the server's certificate will be checked against (TransportConfiguration.Domain) is the one
 // the application configured or else the domain of the JID - never the host the connection happens to go to.
@@ -861,7 +875,7 @@ package xmpp
 //@   ensures [C13.Connect.hook]  (err == nil && old(c.PostConnectHook) != nil) ==> count(PostConnectHook) == old(count(PostConnectHook)) + 1
 //@   ensures [C13.Connect.noloss] forall(j, old(count(EventHandler)), count(EventHandler), arg(EventHandler, j, 0).State.state != StateDisconnected && arg(EventHandler, j, 0).State.state != StateStreamError)
 //@   assigns c.Session, c.Session.err, c.Session.Features, c.Session.TlsEnabled, c.Session.StreamId, c.Session.SMState, c.Session.BindJid, c.Session.lastPacketId, c.config.StreamManagementEnable, c.CurrentState.state
-//@   emits Write, Decoded, DecodedElement, StartTLSCalled, SecureAsked, PacketRead, StanzaRead, AckReqRead, StreamErrRead, TokenRead, Marshaled, StreamStarted, TlsDone, AuthConfirmed, Restarted, ResumedOK, Bound, SessionOpened, SMEnabledOK, Connected, EventHandler, Spawn, Spawn_connect$1, Spawn_recv, Spawn_keepalive, PostConnectHook
+//@   emits Write, Decoded, DecodedElement, StartTLSCalled, SecureAsked, PacketRead, StanzaRead, AckReqRead, StreamErrRead, TokenRead, Marshaled, StreamStarted, TlsDone, AuthConfirmed, Restarted, ResumedOK, Bound, SessionOpened, SMEnabledOK, Connected, EventHandler, Spawn, Spawn_connect$1, Spawn_recv, Spawn_keepalive, PostConnectHook, Closed, DecodeFailed
 //@   at call Write assert [C04.presence] c.CurrentState.state == StateSessionEstablished && count(AuthConfirmed) == old(count(AuthConfirmed)) + 1 && (c.config.Insecure || last(SecureAsked, 1))
 //
 //@ func (*xmpp.Client).Resume(c) (err)
@@ -872,7 +886,7 @@ package xmpp
 //@   ensures [C13.Resume.fail]  c.CurrentState.state != StateSessionEstablished ==> err != nil
 //@   ensures [C13.Resume.noloss] forall(j, old(count(EventHandler)), count(EventHandler), arg(EventHandler, j, 0).State.state != StateDisconnected && arg(EventHandler, j, 0).State.state != StateStreamError)
 //@   assigns c.Session, c.Session.err, c.Session.Features, c.Session.TlsEnabled, c.Session.StreamId, c.Session.SMState, c.Session.BindJid, c.Session.lastPacketId, c.config.StreamManagementEnable, c.CurrentState.state
-//@   emits Write, Decoded, DecodedElement, StartTLSCalled, SecureAsked, PacketRead, StanzaRead, AckReqRead, StreamErrRead, TokenRead, Marshaled, StreamStarted, TlsDone, AuthConfirmed, Restarted, ResumedOK, Bound, SessionOpened, SMEnabledOK, Connected, EventHandler, Spawn, Spawn_connect$1, Spawn_recv, Spawn_keepalive, PostResumeHook
+//@   emits Write, Decoded, DecodedElement, StartTLSCalled, SecureAsked, PacketRead, StanzaRead, AckReqRead, StreamErrRead, TokenRead, Marshaled, StreamStarted, TlsDone, AuthConfirmed, Restarted, ResumedOK, Bound, SessionOpened, SMEnabledOK, Connected, EventHandler, Spawn, Spawn_connect$1, Spawn_recv, Spawn_keepalive, PostResumeHook, Closed, DecodeFailed
 
 // The websocket reader goroutine only moves complete frames from the socket to the queue; it never cancels the
 // transport's context (only Close does), so frames already queued when the connection drops still reach Read (C05).
@@ -888,12 +902,14 @@ package xmpp
 //@ func (xmpp.WebsocketTransport).StartStream(t) (id, err)
 //@   requires t.decoder != nil && t.wsConn != nil
 //@   ensures [C16.ws.startstream.id] err == nil ==> headerId(id)
-//@   emits Write, WsWrite, TokenRead, CtxCancelled
+//@   ensures [C13.ws.startstream.transient] err != nil ==> typeof(err) == ConnError && !err.(ConnError).Permanent
+//@   emits Write, WsWrite, TokenRead, CtxCancelled, DecodeFailed
 //
 //@ func (*xmpp.WebsocketTransport).Connect(t) (id, err)
 //@   requires t != nil
 //@   emit Connected(iface(t), id) when err == nil
 //@   ensures [C16.ws.connect.id] err == nil ==> headerId(id)
+//@   ensures [C13.ws.dial.transient] err != nil ==> typeof(err) == ConnError && (err.(ConnError).Permanent ==> err.(ConnError).err == ServerDoesNotSupportXmppOverWebsocket)
 //@   ensures [C02.decoder.strict] err == nil ==> strictDecoder(t.decoder)
 //@   emits Write, WsWrite, TokenRead, CtxCancelled, Spawn, Spawn_startReader$1
 //@   assigns *
